@@ -741,13 +741,14 @@ fn z_score(d: ContinuousDistribution, x: float)->float{
 struct Date(year: int, month: int, day: int)
 
 fn date(jd: int)->Date{
-    let f = jd + 1401 + trunc((trunc((4*jd + 274277)/146097) * 3)/4) - 38;
+    // integer (floored) division throughout: exact, and valid for negative day numbers too
+    let f = jd + 1401 + div_floor(div_floor(4*jd + 274277, 146097) * 3, 4) - 38;
     let e = 4*f+3;
-    let g = trunc((e % 1461)/4);
+    let g = div_floor(e % 1461, 4);
     let h = 5*g+2;
-    let days = trunc((h % 153) / 5) + 1;
-    let months = (trunc(h/153) + 2)%12 + 1;
-    let years = trunc(e/1461) - 4716 + trunc((14 - months)/12);
+    let days = div_floor(h % 153, 5) + 1;
+    let months = (div_floor(h, 153) + 2)%12 + 1;
+    let years = div_floor(e, 1461) - 4716 + div_floor(14 - months, 12);
     Date(years, months, days)
 }
 
@@ -764,10 +765,10 @@ fn julian_day(date: Date)->int{
     let month = date::month;
     let day = date::day;
 
-    let a = trunc((14 - month) / 12);
+    let a = div_floor(14 - month, 12);
     let y = year + 4800 - a;
     let m = month + 12 * a - 3;
-    day + trunc((153 * m + 2)/5) + y*365 + trunc(y/4) - trunc(y/100) + trunc(y/400) - 32045
+    day + div_floor(153 * m + 2, 5) + y*365 + div_floor(y, 4) - div_floor(y, 100) + div_floor(y, 400) - 32045
 }
 
 fn to_str(d: Date)->str{
@@ -787,9 +788,9 @@ fn datetime(unix: float)->Datetime{
     let seconds = unix % 60.0;
     let u = (unix/60.0).floor();
     let minutes = u % 60;
-    let u = (u/60).floor();
+    let u = div_floor(u, 60);
     let hours = u %24;
-    let u = (u/24).floor();
+    let u = div_floor(u, 24);
     let days = date(u + __std_unix_epoch.julian_day());
     Datetime(days, hours, minutes, seconds)
 }
@@ -955,7 +956,8 @@ fn fraction(n: int)->Fraction{
 
 fn fraction(n: int, d: int)->Fraction{
     let g = gcd(n, d);
-    Fraction(trunc((n/g)/sign(d)), trunc(abs(d)/g))
+    if(d == 0, error("fraction with a zero denominator"),
+        Fraction(div_floor(n, g) * sign(d), div_floor(abs(d), g)))
 }
 
 fn fraction(f: float)->Fraction{
